@@ -331,6 +331,7 @@ func generate(e *emitter, o vh.Opts) {
 	e.meta.Extra["exhaustive_depth"] = depth
 	generateMultiMix(e, o)
 	generateMultiFirst(e, o)
+	generateCounterReset(e, o)
 	r := vh.NewRand(o.Seed)
 	nrand, nlat := 700, 1500
 	if o.Thorough() {
